@@ -1428,6 +1428,1039 @@ Theorem implicit_all_canon sch ns f g d :
 Proof. intros Hu Hk Hkeys Hc H. apply (level_canon sch Hu Hk Hkeys false ns _ _ _ _ _ Hc H). Qed.
 
 (* ------------------------------------------------------------------------------------------- *)
+(* inserting a default node                                                                      *)
+(* ------------------------------------------------------------------------------------------- *)
+Lemma filter_insert_other sch (q : dnode -> bool) f n : q n = false -> filter q (insert_node sch f n) = filter q f.
+Proof.
+  intro Hq. induction f as [|b r IH]; cbn [insert_node filter]; [rewrite Hq; reflexivity|].
+  destruct (goes_before sch n b); cbn [filter]; [rewrite Hq; reflexivity|]. rewrite IH. reflexivity.
+Qed.
+
+Lemma filter_insert_perm sch (q : dnode -> bool) f n : q n = true -> Permutation (n :: filter q f) (filter q (insert_node sch f n)).
+Proof.
+  intro Hq. induction f as [|b r IH]; cbn [insert_node filter]; [rewrite Hq; reflexivity|].
+  destruct (goes_before sch n b); cbn [filter]; [rewrite Hq; reflexivity|].
+  destruct (q b); [|exact IH]. rewrite perm_swap. constructor. exact IH.
+Qed.
+
+Lemma existsb_insert sch (q : dnode -> bool) f n : existsb q (insert_node sch f n) = q n || existsb q f.
+Proof.
+  destruct (existsb q (insert_node sch f n)) eqn:E.
+  - apply existsb_exists in E. destruct E as [x [Hx Hq]]. apply insert_node_In in Hx. symmetry.
+    destruct Hx as [->|Hx]; [rewrite Hq; reflexivity|]. apply orb_true_iff. right. apply existsb_exists. exists x. split; assumption.
+  - rewrite existsb_false_forall in E. symmetry. apply orb_false_iff. split.
+    + apply E. apply insert_node_In. left. reflexivity.
+    + apply existsb_false_forall. intros x Hx. apply E. apply insert_node_In. right. exact Hx.
+Qed.
+
+(* the activity of a chain only looks at the explicit nodes *)
+Lemma active_from_insert sch g n : d_dflt n = true -> forall l pre,
+  active_from sch (insert_node sch g n) pre l = active_from sch g pre l.
+Proof.
+  intro Hd. induction l as [|x l IH]; intro pre; cbn [active_from]; [reflexivity|].
+  rewrite !existsb_insert, IH. unfold expl. rewrite Hd. reflexivity.
+Qed.
+
+Lemma active_insert sch g n s : d_dflt n = true -> active sch (insert_node sch g n) s = active sch g s.
+Proof. intro Hd. unfold active. apply active_from_insert. exact Hd. Qed.
+
+Lemma has_sid_insert sch g n s : has_sid (insert_node sch g n) s = (d_sid n =? s) || has_sid g s.
+Proof. unfold has_sid. apply existsb_insert. Qed.
+
+(* chains that agree up to a choice *)
+Lemma chain_conflict_split la : forall lb x y ra rb, map cc_of la = map cc_of lb ->
+  chain_conflict (la ++ x :: ra) (lb ++ y :: rb) =
+  if ch_id x =? ch_id y then (if ch_case x =? ch_case y then chain_conflict ra rb else true) else false.
+Proof.
+  induction la as [|a la IH]; intros [|b lb] x y ra rb E; cbn [map] in E; try discriminate; cbn [app chain_conflict]; [reflexivity|].
+  assert (E1 : cc_of a = cc_of b) by congruence. assert (E2 : map cc_of la = map cc_of lb) by congruence.
+  unfold cc_of in E1. assert (E1a : ch_id a = ch_id b) by congruence. assert (E1b : ch_case a = ch_case b) by congruence.
+  rewrite E1a, E1b, !N.eqb_refl. apply IH. exact E2.
+Qed.
+
+Lemma clr_new_not_new n : d_new (clr_new n) = false.
+Proof.
+  destruct n as [s v d m ch]. unfold d_new. cbn [clr_new d_meta]. apply existsb_false_forall.
+  intros kv Hkv. apply filter_In in Hkv. apply negb_true_iff. apply Hkv.
+Qed.
+
+(* ------------------------------------------------------------------------------------------- *)
+(* the required default instances                                                                *)
+(* ------------------------------------------------------------------------------------------- *)
+Definition complete (sch : schema) (s : sid) (D : list dnode) : bool :=
+  match kind_of sch s with
+  | KLeaf => match si_dflts (sget sch s) with
+             | v :: _ => match D with [x] => beq_bytes (d_val x) v && is_nil (d_ch x) | _ => false end
+             | [] => false
+             end
+  | KLeafList => match si_dflts (sget sch s) with
+                 | [] => false
+                 | vs => same_vals (map d_val D) vs && forallb (fun x => is_nil (d_ch x)) D
+                 end
+  | KCont false => match D with [_] => true | _ => false end
+  | _ => false
+  end.
+
+Lemma norm_snode_alt sch g s :
+  norm_snode sch g s =
+  if has_default sch s && (is_nil (filter (is_expl_of s) g) && active sch g s)
+  then complete sch s (filter (is_dflt_of s) g) else is_nil (filter (is_dflt_of s) g).
+Proof.
+  unfold norm_snode, complete, has_default.
+  destruct (kind_of sch s) as [[|]| | | |]; cbn [andb]; try reflexivity;
+    destruct (si_dflts (sget sch s)); cbn [andb]; try reflexivity;
+    destruct (is_nil (filter (is_expl_of s) g) && active sch g s); reflexivity.
+Qed.
+
+Lemma count_val_perm v a b : Permutation a b -> count_val v a = count_val v b.
+Proof.
+  unfold count_val. induction 1 as [|x a b H IH|x y a|a b c H1 IH1 H2 IH2]; cbn [filter]; try reflexivity.
+  - destruct (beq_bytes v x); cbn [length]; rewrite IH; reflexivity.
+  - destruct (beq_bytes v y), (beq_bytes v x); reflexivity.
+  - congruence.
+Qed.
+
+Lemma same_vals_perm a b : Permutation a b -> same_vals a b = true.
+Proof.
+  intro H. unfold same_vals. apply forallb_forall. intros v _. apply Nat.eqb_eq. apply count_val_perm. exact H.
+Qed.
+
+Lemma same_vals_refl a : same_vals a a = true.
+Proof. apply same_vals_perm. reflexivity. Qed.
+
+(* ------------------------------------------------------------------------------------------- *)
+(* lyd_new_implicit on a sibling list: invariant                                                 *)
+(* ------------------------------------------------------------------------------------------- *)
+Section Impl.
+  Variable sch : schema.
+  Variable path : list pstep.
+  Variable p : option sid.
+  Variable E : forest.                       (* the explicit siblings *)
+  Hypothesis Hk : chc_okb sch = true.
+  Hypothesis HEcases : cases_okb sch E = true.
+
+  Record Inv (g : forest) : Prop := {
+    i_expl : filter expl g = E;
+    i_dflt : forall n, In n g -> d_dflt n = true ->
+             In (d_sid n) (schildren sch p) /\ active sch g (d_sid n) = true /\ d_new n = false /\ d_ch n = [];
+    i_comp : forall s, filter (is_dflt_of s) g = [] \/
+                       (has_sid E s = false /\ has_default sch s = true /\ complete sch s (filter (is_dflt_of s) g) = true)
+  }.
+
+  Lemma mk_dflt_facts s v : d_dflt (mk_dflt s v) = true /\ d_sid (mk_dflt s v) = s /\ d_new (mk_dflt s v) = false /\
+                            expl (mk_dflt s v) = false /\ d_ch (mk_dflt s v) = [] /\ d_val (mk_dflt s v) = v.
+  Proof. repeat split. Qed.
+
+  (* several default instances of s added one after the other *)
+  Lemma fold_add_dflt s : forall vs st,
+    let r := fold_left (add_dflt sch path s) vs st in
+    (forall q : dnode -> bool, (forall v, q (mk_dflt s v) = false) -> filter q (fst r) = filter q (fst st)) /\
+    Permutation (map (mk_dflt s) (rev vs) ++ filter (is_dflt_of s) (fst st)) (filter (is_dflt_of s) (fst r)) /\
+    (forall l pre, active_from sch (fst r) pre l = active_from sch (fst st) pre l) /\
+    (forall x, In x (fst r) <-> In x (fst st) \/ exists v, In v vs /\ x = mk_dflt s v).
+  Proof.
+    induction vs as [|v vs IH]; intro st; cbn [fold_left rev map app].
+    - repeat split; try reflexivity; [intro H; left; exact H|intros [H|[v [[] _]]]; exact H].
+    - destruct (IH (add_dflt sch path s st v)) as [H1 [H2 [H3 H4]]]. cbv zeta in *.
+      assert (Ea : fst (add_dflt sch path s st v) = insert_node sch (fst st) (mk_dflt s v)) by reflexivity.
+      rewrite Ea in H1, H2, H3, H4.
+      repeat split.
+      + intros q Hq. rewrite (H1 q Hq). apply filter_insert_other. apply Hq.
+      + rewrite map_app. cbn [map]. rewrite <- app_assoc. cbn [app].
+        eapply Permutation_trans; [|exact H2].
+        apply Permutation_app_head.
+        apply (filter_insert_perm sch (is_dflt_of s) (fst st) (mk_dflt s v)).
+        unfold is_dflt_of. cbn [mk_dflt d_sid d_dflt]. rewrite N.eqb_refl. reflexivity.
+      + intros l pre. rewrite H3. apply active_from_insert. reflexivity.
+      + intro Hx. apply H4 in Hx. destruct Hx as [Hx|[v' [Hv' Hx]]].
+        * apply insert_node_In in Hx. destruct Hx as [->|Hx]; [right; exists v; split; [left; reflexivity|reflexivity]|left; exact Hx].
+        * right. exists v'. split; [right; exact Hv'|exact Hx].
+      + intros [Hx|[v' [[<-|Hv'] Hx]]]; apply H4.
+        * left. apply insert_node_In. right. exact Hx.
+        * left. apply insert_node_In. left. exact Hx.
+        * right. exists v'. split; assumption.
+  Qed.
+
+  Lemma has_sid_filter_expl g s : has_sid g s = false -> has_sid (filter expl g) s = false.
+  Proof.
+    unfold has_sid. rewrite !existsb_false_forall. intros H x Hx. apply filter_In in Hx. apply H, Hx.
+  Qed.
+
+  Lemma add_many_inv g acc s vs :
+    Inv g -> In s (schildren sch p) -> active sch g s = true -> has_sid g s = false ->
+    has_default sch s = true ->
+    (forall D, Permutation (map (mk_dflt s) (rev vs)) D -> complete sch s D = true) ->
+    Inv (fst (fold_left (add_dflt sch path s) vs (g, acc))).
+  Proof.
+    intros [I1 I2 I3] Hs Ha Hh Hd Hc.
+    destruct (fold_add_dflt s vs (g, acc)) as [H1 [H2 [H3 H4]]]. cbv zeta in *. cbn [fst] in H1, H2, H3, H4.
+    set (r := fold_left (add_dflt sch path s) vs (g, acc)) in *.
+    assert (Hact : forall s', active sch (fst r) s' = active sch g s') by (intro s'; unfold active; apply H3).
+    constructor.
+    - rewrite (H1 expl (fun v => eq_refl)). exact I1.
+    - intros n Hn Hdn. apply H4 in Hn. destruct Hn as [Hn|[v [_ ->]]].
+      + destruct (I2 n Hn Hdn) as [A [B [C D]]]. repeat split; [exact A|rewrite Hact; exact B|exact C|exact D].
+      + repeat split; [exact Hs|rewrite Hact; exact Ha].
+    - intro s'. destruct (N.eq_dec s' s) as [->|Hne].
+      + right. split; [rewrite <- I1; apply has_sid_filter_expl; exact Hh|]. split; [exact Hd|].
+        assert (E0 : filter (is_dflt_of s) g = []) by (apply (has_sid_false_filter g s d_dflt Hh)).
+        apply Hc. rewrite E0, app_nil_r in H2. exact H2.
+      + assert (Eq : filter (is_dflt_of s') (fst r) = filter (is_dflt_of s') g).
+        { apply H1. intro v. unfold is_dflt_of. cbn [mk_dflt d_sid d_dflt].
+          assert (s =? s' = false) by (apply N.eqb_neq; congruence). rewrite H. reflexivity. }
+        rewrite Eq. apply I3.
+  Qed.
+
+  Lemma perm_singleton {A} (x : A) D : Permutation [x] D -> D = [x].
+  Proof. intro H. apply Permutation_length_1_inv in H. exact H. Qed.
+
+  Lemma impl_snode_inv g acc s :
+    Inv g -> In s (schildren sch p) -> active sch g s = true -> Inv (fst (impl_snode sch false path (g, acc) s)).
+  Proof.
+    intros HI Hs Ha. unfold impl_snode. cbn [andb fst]. destruct (has_sid g s) eqn:Eh; [exact HI|].
+    destruct (kind_of sch s) as [[|]| | | |] eqn:Ek; try exact HI.
+    - (* non-presence container *)
+      apply (add_many_inv g acc s [[]] HI Hs Ha Eh); [unfold has_default; rewrite Ek; reflexivity|].
+      intros D HD. cbn [rev app map] in HD. apply perm_singleton in HD. subst D. unfold complete. rewrite Ek. reflexivity.
+    - destruct (si_dflts (sget sch s)) as [|v vs] eqn:Ed; [exact HI|].
+      apply (add_many_inv g acc s [v] HI Hs Ha Eh); [unfold has_default; rewrite Ek, Ed; reflexivity|].
+      intros D HD. cbn [rev app map] in HD. apply perm_singleton in HD. subst D. unfold complete. rewrite Ek, Ed.
+      cbn [mk_dflt d_val d_ch is_nil]. rewrite (proj2 (beq_bytes_eq v v) eq_refl). reflexivity.
+    - destruct (si_dflts (sget sch s)) as [|v vs] eqn:Ed; [exact HI|].
+      apply (add_many_inv g acc s (v :: vs) HI Hs Ha Eh); [unfold has_default; rewrite Ek, Ed; reflexivity|].
+      intros D HD. unfold complete. rewrite Ek, Ed. apply andb_true_iff. split.
+      + apply same_vals_perm. apply Permutation_sym.
+        eapply Permutation_trans; [apply Permutation_rev|].
+        assert (Em : map d_val (map (mk_dflt s) (rev (v :: vs))) = rev (v :: vs)).
+        { rewrite map_map. cbn [mk_dflt d_val]. apply map_id. }
+        rewrite <- Em. apply Permutation_map. exact HD.
+      + apply forallb_forall. intros x Hx. apply (Permutation_in _ (Permutation_sym HD)) in Hx.
+        apply in_map_iff in Hx. destruct Hx as [w [<- _]]. reflexivity.
+  Qed.
+
+  Lemma existsb_expl q g : existsb (fun n => expl n && q n) g = existsb q (filter expl g).
+  Proof.
+    induction g as [|n g IH]; cbn [existsb filter]; [reflexivity|].
+    destruct (expl n); cbn [andb orb existsb]; rewrite IH; reflexivity.
+  Qed.
+
+  Lemma active_from_Inv g : Inv g -> forall l pre, active_from sch g pre l = active_from sch E pre l.
+  Proof.
+    intros [I1 _ _]. induction l as [|x l IH]; intro pre; cbn [active_from]; [reflexivity|].
+    rewrite IH. rewrite !(existsb_expl _ g), !(existsb_expl _ E), I1.
+    assert (EE : filter expl E = E).
+    { rewrite <- I1. clear. induction g as [|n g IH]; cbn [filter]; [reflexivity|].
+      destruct (expl n) eqn:En; cbn [filter]; [rewrite En, IH; reflexivity|exact IH]. }
+    rewrite EE. reflexivity.
+  Qed.
+
+  Lemma impl_snode_incl g acc s x : In x g -> In x (fst (impl_snode sch false path (g, acc) s)).
+  Proof.
+    intro Hx. unfold impl_snode. cbn [andb fst]. destruct (has_sid g s); [exact Hx|].
+    assert (Hone : forall st v, In x (fst st) -> In x (fst (add_dflt sch path s st v))).
+    { intros st v H. unfold add_dflt. cbn [fst]. apply insert_node_In. right. exact H. }
+    destruct (kind_of sch s) as [[|]| | | |]; try exact Hx.
+    - apply Hone. exact Hx.
+    - destruct (si_dflts (sget sch s)); [exact Hx|apply Hone; exact Hx].
+    - apply (fold_left_inv _ (fun st => In x (fst st))); [intros st v _ H; apply Hone; exact H|exact Hx].
+  Qed.
+
+  (* the decision taken for a choice agrees with the activity of the case *)
+  Definition level_cond (g : forest) (pre : list cc) (x : chc) : bool :=
+    existsb (fun n => expl n && in_case sch pre (ch_id x) (ch_case x) n) g ||
+    (ch_dflt x && negb (existsb (fun n => expl n && in_choice sch pre (ch_id x) n) g)).
+
+  Lemma active_from_snoc g l0 x : active_from sch g [] (l0 ++ [x]) = active_from sch g [] l0 && level_cond g (map cc_of l0) x.
+  Proof. rewrite active_from_app. cbn [active_from app]. rewrite andb_true_r. reflexivity. Qed.
+
+  (* the chain element the code follows at choice c of level l0 is in use *)
+  Lemma decision_active g l0 c : Inv g -> incl l0 (all_chcs sch) ->
+    forall k, match find (in_choice sch (map cc_of l0) c) g with
+              | Some n => n_case sch (map cc_of l0) c n
+              | None => dflt_case sch p (map cc_of l0) c
+              end = Some k ->
+    exists x, In x (all_chcs sch) /\ ch_id x = c /\ ch_case x = k /\ level_cond g (map cc_of l0) x = true.
+  Proof.
+    intros HI Hi k Hd.
+    destruct (find (in_choice sch (map cc_of l0) c) g) as [n|] eqn:Ef.
+    - pose proof (find_some _ _ Ef) as [Hnin _].
+      unfold n_case, s_case in Hd.
+      destruct (next_chc (map cc_of l0) (chainf sch (d_sid n))) as [x|] eqn:En; [|discriminate].
+      destruct (ch_id x =? c) eqn:Exc; [|discriminate]. apply N.eqb_eq in Exc. injection Hd as Hd.
+      destruct (next_chc_some _ _ _ En) as [la [lb [Hl Hp]]].
+      exists x. split; [apply (chainf_incl sch (d_sid n)); rewrite Hl; apply in_or_app; right; left; reflexivity|].
+      split; [exact Exc|]. split; [exact Hd|].
+      destruct (d_dflt n) eqn:Ed.
+      + destruct (i_dflt g HI n Hnin Ed) as [_ [Hact _]].
+        unfold active in Hact. rewrite Hl, active_from_app in Hact. apply andb_true_iff in Hact. destruct Hact as [_ Hact].
+        cbn [active_from app] in Hact. rewrite Hp in Hact. apply andb_true_iff in Hact. apply Hact.
+      + unfold level_cond. apply orb_true_iff. left. apply existsb_exists. exists n. split; [exact Hnin|].
+        unfold expl. rewrite Ed. cbn [negb andb]. unfold in_case, n_case, s_case. rewrite En, N.eqb_refl. apply N.eqb_refl.
+    - unfold dflt_case in Hd.
+      destruct (choice_elem sch p (map cc_of l0) c ch_dflt) as [x|] eqn:Ece; cbn [option_map] in Hd; [|discriminate].
+      injection Hd as Hd. destruct (choice_elem_some _ _ _ _ _ _ Ece) as [Hxin [Hxc [Hxd _]]].
+      exists x. split; [exact Hxin|]. split; [exact Hxc|]. split; [exact Hd|].
+      unfold level_cond. apply orb_true_iff. right. rewrite Hxd. cbn [andb]. apply negb_true_iff. apply existsb_false_forall.
+      intros m Hm. rewrite Hxc. rewrite (find_none _ _ Ef m Hm). apply andb_false_r.
+  Qed.
+
+  Lemma implicit_inv : forall fuel l0 st r,
+    incl l0 (all_chcs sch) -> Inv (fst st) -> active_from sch E [] l0 = true ->
+    implicit fuel sch false path p (map cc_of l0) st = Ok r -> Inv (fst r) /\ incl (fst st) (fst r).
+  Proof.
+    induction fuel as [|fuel IH]; intros l0 st r Hi HI Ha H; cbn [implicit] in H; [discriminate|].
+    apply bind_ok in H. destruct H as [st1 [H1 H]].
+    assert (P1 : Inv (fst st1) /\ incl (fst st) (fst st1)).
+    { apply (fold_res_inv _ (fun s => Inv (fst s) /\ incl (fst st) (fst s)) _) with (s := st) (r := st1) in H1;
+        [exact H1| |split; [exact HI|apply incl_refl]].
+      intros s c r' _ [HIs Hinc] Hc.
+      assert (Hgen : forall k, match find (in_choice sch (map cc_of l0) c) (fst s) with
+                               | Some n => n_case sch (map cc_of l0) c n
+                               | None => dflt_case sch p (map cc_of l0) c end = Some k ->
+                     implicit fuel sch false path p (map cc_of l0 ++ [(c, k)]) s = Ok r' ->
+                     Inv (fst r') /\ incl (fst st) (fst r')).
+      { intros k Hd Hr. destruct (decision_active (fst s) l0 c HIs Hi k Hd) as [x [Hxin [Hxc [Hxk Hlc]]]].
+        assert (Em : map cc_of l0 ++ [(c, k)] = map cc_of (l0 ++ [x])).
+        { assert (Ex : cc_of x = (c, k)) by (unfold cc_of; rewrite Hxc, Hxk; reflexivity).
+          rewrite map_app. cbn [map]. rewrite Ex. reflexivity. }
+        rewrite Em in Hr. apply IH in Hr.
+        - destruct Hr as [Hr1 Hr2]. split; [exact Hr1|]. intros y Hy. apply Hr2, Hinc, Hy.
+        - intros z Hz. apply in_app_or in Hz. destruct Hz as [Hz|[<-|[]]]; [apply Hi; exact Hz|exact Hxin].
+        - exact HIs.
+        - rewrite <- (active_from_Inv (fst s) HIs), active_from_snoc, (active_from_Inv (fst s) HIs), Ha, Hlc. reflexivity. }
+      destruct (find (in_choice sch (map cc_of l0) c) (fst s)) as [n|].
+      - destruct (n_case sch (map cc_of l0) c n) as [k|]; [apply (Hgen k eq_refl Hc)|inversion Hc; subst; split; assumption].
+      - destruct (dflt_case sch p (map cc_of l0) c) as [k|]; [apply (Hgen k eq_refl Hc)|inversion Hc; subst; split; assumption]. }
+    destruct P1 as [HI1 Hinc1]. inversion H; subst.
+    apply (fold_left_inv _ (fun s' => Inv (fst s') /\ incl (fst st) (fst s'))); [|split; assumption].
+    intros [g acc] s Hs [HIg Hincg]. cbn [fst] in *. split.
+    - unfold snodes_at in Hs. apply filter_In in Hs. destruct Hs as [Hsc Hci].
+      apply impl_snode_inv; [exact HIg|exact Hsc|].
+      apply chain_is_eq in Hci.
+      assert (Ec : chainf sch s = l0) by (apply (chain_eq sch Hk); [apply chainf_incl|exact Hi|exact Hci]).
+      unfold active. rewrite Ec, (active_from_Inv g HIg). exact Ha.
+    - intros y Hy. apply impl_snode_incl. apply Hincg, Hy.
+  Qed.
+
+  (* ---- completeness: every default in use gets created ---- *)
+  Lemma In_fold_add_new l : forall acc x, In x (fold_left add_new l acc) <-> In x acc \/ In x l.
+  Proof.
+    induction l as [|y l IH]; intros acc x; cbn [fold_left]; [split; [intro H; left; exact H|intros [H|[]]; exact H]|].
+    rewrite IH. unfold add_new. destruct (existsb (N.eqb y) acc) eqn:Ey.
+    - split; [intros [H|H]; [left; exact H|right; right; exact H]|intros [H|[<-|H]]; [left; exact H| |right; exact H]].
+      left. apply existsb_exists in Ey. destruct Ey as [z [Hz Ez]]. apply N.eqb_eq in Ez. subst z. exact Hz.
+    - split.
+      + intros [H|H]; [apply in_app_or in H; destruct H as [H|[<-|[]]]; [left; exact H|right; left; reflexivity]|right; right; exact H].
+      + intros [H|[<-|H]]; [left; apply in_or_app; left; exact H|left; apply in_or_app; right; left; reflexivity|right; exact H].
+  Qed.
+
+  Lemma In_nodupN l x : In x (nodupN l) <-> In x l.
+  Proof. unfold nodupN. rewrite In_fold_add_new. split; [intros [[]|H]; exact H|intro H; right; exact H]. Qed.
+
+  Lemma in_choices_at s l0 x l1 :
+    In s (schildren sch p) -> chainf sch s = l0 ++ x :: l1 -> In (ch_id x) (choices_at sch p (map cc_of l0)).
+  Proof.
+    intros Hs Hc. unfold choices_at. apply In_nodupN. apply filter_map_In. exists s. split; [exact Hs|].
+    rewrite Hc, next_chc_app. reflexivity.
+  Qed.
+
+  Lemma fold_left_elem {A S} (f : S -> A -> S) (P : S -> Prop) (l : list A) (a : A) :
+    In a l -> (forall st, P (f st a)) -> (forall st x, P st -> P (f st x)) -> forall st0, P (fold_left f l st0).
+  Proof.
+    induction l as [|y l IH]; intros Hin Ha Hm st0; [destruct Hin|]. cbn [fold_left].
+    destruct Hin as [->|Hin]; [apply fold_left_inv; [intros s x _ Hp; apply Hm, Hp|apply Ha]|apply IH; assumption].
+  Qed.
+
+  Lemma impl_snode_creates st s : has_default sch s = true -> has_sid (fst (impl_snode sch false path st s)) s = true.
+  Proof.
+    intro Hd. unfold impl_snode. cbn [andb]. destruct (has_sid (fst st) s) eqn:Eh; [exact Eh|].
+    assert (Hone : forall st' v, has_sid (fst (add_dflt sch path s st' v)) s = true).
+    { intros st' v. unfold add_dflt. cbn [fst]. rewrite has_sid_insert. cbn [mk_dflt d_sid]. rewrite N.eqb_refl. reflexivity. }
+    unfold has_default in Hd.
+    destruct (kind_of sch s) as [[|]| | | |]; try discriminate.
+    - apply Hone.
+    - destruct (si_dflts (sget sch s)); [discriminate|apply Hone].
+    - destruct (si_dflts (sget sch s)) as [|v vs]; [discriminate|]. cbn [fold_left].
+      apply (fold_left_inv _ (fun st' => has_sid (fst st') s = true)); [|apply Hone].
+      intros st' v' _ H. unfold add_dflt. cbn [fst]. rewrite has_sid_insert, H. apply orb_true_r.
+  Qed.
+
+  Lemma has_sid_incl g g' s : incl g g' -> has_sid g s = true -> has_sid g' s = true.
+  Proof.
+    unfold has_sid. intros Hi H. apply existsb_exists in H. destruct H as [x [Hx Hs]].
+    apply existsb_exists. exists x. split; [apply Hi, Hx|exact Hs].
+  Qed.
+
+  Lemma in_case_in_choice pre c k n : in_case sch pre c k n = true -> in_choice sch pre c n = true.
+  Proof. unfold in_case, in_choice. destruct (n_case sch pre c n); [reflexivity|discriminate]. Qed.
+
+  (* two cases of one choice that are both in use are the same case *)
+  Lemma level_cond_same_case g l0 x x' : Inv g -> In x (all_chcs sch) -> In x' (all_chcs sch) ->
+    ch_id x = ch_id x' -> level_cond g (map cc_of l0) x = true -> level_cond g (map cc_of l0) x' = true ->
+    ch_case x = ch_case x'.
+  Proof.
+    intros HI Hx Hx' Eid H1 H2. unfold level_cond in H1, H2. rewrite <- Eid in H2.
+    set (N := existsb (fun n => expl n && in_choice sch (map cc_of l0) (ch_id x) n) g) in *.
+    assert (Hex : forall y, existsb (fun n => expl n && in_case sch (map cc_of l0) (ch_id x) (ch_case y) n) g = true -> N = true).
+    { intros y H. apply existsb_exists in H. destruct H as [m [Hm Hq]]. apply andb_true_iff in Hq. destruct Hq as [He Hc].
+      apply existsb_exists. exists m. split; [exact Hm|]. rewrite He. apply (in_case_in_choice _ _ _ _ Hc). }
+    apply orb_true_iff in H1. apply orb_true_iff in H2.
+    destruct H1 as [A1|D1], H2 as [A2|D2].
+    - (* explicit nodes in both cases: the explicit siblings do not conflict *)
+      apply existsb_exists in A1. destruct A1 as [m1 [Hm1 Hq1]]. apply andb_true_iff in Hq1. destruct Hq1 as [He1 Hc1].
+      apply existsb_exists in A2. destruct A2 as [m2 [Hm2 Hq2]]. apply andb_true_iff in Hq2. destruct Hq2 as [He2 Hc2].
+      destruct (in_case_chain _ _ _ _ _ Hc1) as [la [y1 [ra [Hl1 [Hp1 [Hi1 Hk1]]]]]].
+      destruct (in_case_chain _ _ _ _ _ Hc2) as [lb [y2 [rb [Hl2 [Hp2 [Hi2 Hk2]]]]]].
+      assert (HE1 : In m1 E) by (rewrite <- (i_expl g HI); apply filter_In; split; assumption).
+      assert (HE2 : In m2 E) by (rewrite <- (i_expl g HI); apply filter_In; split; assumption).
+      unfold cases_okb in HEcases. rewrite forallb_forall in HEcases. specialize (HEcases m1 HE1).
+      rewrite forallb_forall in HEcases. specialize (HEcases m2 HE2). apply negb_true_iff in HEcases.
+      rewrite Hl1, Hl2, (chain_conflict_split la lb y1 y2 ra rb) in HEcases by congruence.
+      rewrite Hi1, Hi2, N.eqb_refl in HEcases.
+      destruct (ch_case y1 =? ch_case y2) eqn:Ec; [|discriminate]. apply N.eqb_eq in Ec. congruence.
+    - apply andb_true_iff in D2. destruct D2 as [_ D2]. rewrite (Hex x A1) in D2. discriminate.
+    - apply andb_true_iff in D1. destruct D1 as [_ D1]. rewrite (Hex x' A2) in D1. discriminate.
+    - apply andb_true_iff in D1. destruct D1 as [D1 _]. apply andb_true_iff in D2. destruct D2 as [D2 _].
+      unfold chc_okb in Hk. rewrite forallb_forall in Hk. specialize (Hk x Hx). rewrite forallb_forall in Hk.
+      specialize (Hk x' Hx'). rewrite Eid, N.eqb_refl, D1, D2 in Hk. cbn [negb orb andb] in Hk.
+      apply andb_true_iff in Hk. destruct Hk as [_ Hk2]. apply N.eqb_eq in Hk2. exact Hk2.
+  Qed.
+
+  Lemma fold_res_elem {A S} (f : S -> A -> res S) (I P : S -> Prop) (l : list A) (a : A) :
+    In a l ->
+    (forall st x st', I st -> f st x = Ok st' -> I st' /\ (P st -> P st')) ->
+    (forall st st', I st -> f st a = Ok st' -> P st') ->
+    forall st0 r, I st0 -> fold_res f l st0 = Ok r -> P r.
+  Proof.
+    induction l as [|y l IH]; intros Hin Hstep Ha st0 r HI H; [destruct Hin|]. cbn [fold_res] in H.
+    apply bind_ok in H. destruct H as [st1 [H1 H]].
+    destruct (Hstep st0 y st1 HI H1) as [HI1 _].
+    destruct Hin as [->|Hin].
+    - pose proof (Ha st0 st1 HI H1) as HP.
+      apply (fold_res_inv _ (fun s => I s /\ P s) l) with (s := st1) (r := r) in H; [apply H| |split; assumption].
+      intros s x r' _ [Hs1 Hs2] Hx. destruct (Hstep s x r' Hs1 Hx) as [Hr1 Hr2]. split; [exact Hr1|apply Hr2, Hs2].
+    - apply (IH Hin Hstep Ha st1 r HI1 H).
+  Qed.
+
+  Lemma decision_follows g l0 s x l1 : Inv g -> incl l0 (all_chcs sch) ->
+    In s (schildren sch p) -> chainf sch s = l0 ++ x :: l1 -> level_cond g (map cc_of l0) x = true ->
+    match find (in_choice sch (map cc_of l0) (ch_id x)) g with
+    | Some n => n_case sch (map cc_of l0) (ch_id x) n
+    | None => dflt_case sch p (map cc_of l0) (ch_id x)
+    end = Some (ch_case x).
+  Proof.
+    intros HI Hi Hs Hc Hlc.
+    assert (Hxin : In x (all_chcs sch)) by (apply (chainf_incl sch s); rewrite Hc; apply in_or_app; right; left; reflexivity).
+    assert (Hsome : exists k, match find (in_choice sch (map cc_of l0) (ch_id x)) g with
+                              | Some n => n_case sch (map cc_of l0) (ch_id x) n
+                              | None => dflt_case sch p (map cc_of l0) (ch_id x) end = Some k).
+    { destruct (find (in_choice sch (map cc_of l0) (ch_id x)) g) as [n|] eqn:Ef.
+      - pose proof (find_some _ _ Ef) as [_ Hn]. unfold in_choice in Hn.
+        destruct (n_case sch (map cc_of l0) (ch_id x) n) as [k|]; [exists k; reflexivity|discriminate].
+      - (* no node of the choice: x must be the default case *)
+        unfold level_cond in Hlc. apply orb_true_iff in Hlc. destruct Hlc as [A|D].
+        + apply existsb_exists in A. destruct A as [m [Hm Hq]]. apply andb_true_iff in Hq. destruct Hq as [_ Hq].
+          apply in_case_in_choice in Hq. rewrite (find_none _ _ Ef m Hm) in Hq. discriminate.
+        + apply andb_true_iff in D. destruct D as [D _].
+          unfold dflt_case, choice_elem.
+          destruct (filter_map (fun s0 => match next_chc (map cc_of l0) (chainf sch s0) with
+                                          | Some x0 => if (ch_id x0 =? ch_id x) && ch_dflt x0 then Some x0 else None
+                                          | None => None end) (schildren sch p)) as [|y r] eqn:Efm.
+          * exfalso. assert (Hin : In x []).
+            { rewrite <- Efm. apply filter_map_In. exists s. split; [exact Hs|]. rewrite Hc, next_chc_app, N.eqb_refl, D. reflexivity. }
+            destruct Hin.
+          * exists (ch_case y). reflexivity. }
+    destruct Hsome as [k Hd]. rewrite Hd. f_equal.
+    destruct (decision_active g l0 (ch_id x) HI Hi k Hd) as [x' [Hx'in [Hx'c [Hx'k Hlc']]]].
+    rewrite <- Hx'k. symmetry. apply (level_cond_same_case g l0 x x' HI Hxin Hx'in); [congruence|exact Hlc|exact Hlc'].
+  Qed.
+
+  Lemma implicit_complete : forall fuel l0 st r s l1,
+    incl l0 (all_chcs sch) -> Inv (fst st) -> active_from sch E [] l0 = true ->
+    implicit fuel sch false path p (map cc_of l0) st = Ok r ->
+    In s (schildren sch p) -> chainf sch s = l0 ++ l1 -> active_from sch E (map cc_of l0) l1 = true ->
+    has_default sch s = true -> has_sid (fst r) s = true.
+  Proof.
+    induction fuel as [|fuel IH]; intros l0 st r s l1 Hi HI Ha H Hs Hc Hal Hd; cbn [implicit] in H; [discriminate|].
+    apply bind_ok in H. destruct H as [st1 [H1 H]]. inversion H; subst. clear H.
+    destruct l1 as [|x l1].
+    - (* s is a direct member of this level *)
+      rewrite app_nil_r in Hc.
+      apply (fold_left_elem _ (fun st' => has_sid (fst st') s = true) _ s).
+      + unfold snodes_at. apply filter_In. split; [exact Hs|]. apply chain_is_eq. rewrite Hc. reflexivity.
+      + intro st'. apply impl_snode_creates. exact Hd.
+      + intros [g acc] x Hp. apply (has_sid_incl g); [intros y Hy; apply impl_snode_incl; exact Hy|exact Hp].
+    - (* s lives below the choice of x *)
+      apply (fold_left_inv _ (fun st' => has_sid (fst st') s = true)).
+      { intros [g acc] y _ Hp. apply (has_sid_incl g); [intros z Hz; apply impl_snode_incl; exact Hz|exact Hp]. }
+      cbn [active_from] in Hal. apply andb_true_iff in Hal. destruct Hal as [Hlc Hal].
+      assert (Hstep : forall s0 c r', Inv (fst s0) ->
+                match find (in_choice sch (map cc_of l0) c) (fst s0) with
+                | Some n => match n_case sch (map cc_of l0) c n with
+                            | Some k => implicit fuel sch false path p (map cc_of l0 ++ [(c, k)]) s0
+                            | None => Ok s0 end
+                | None => match dflt_case sch p (map cc_of l0) c with
+                          | Some k => implicit fuel sch false path p (map cc_of l0 ++ [(c, k)]) s0
+                          | None => Ok s0 end
+                end = Ok r' -> Inv (fst r') /\ incl (fst s0) (fst r')).
+      { intros s0 c r' HIs Hr.
+        assert (Hgen : forall k, match find (in_choice sch (map cc_of l0) c) (fst s0) with
+                                 | Some n => n_case sch (map cc_of l0) c n
+                                 | None => dflt_case sch p (map cc_of l0) c end = Some k ->
+                       implicit fuel sch false path p (map cc_of l0 ++ [(c, k)]) s0 = Ok r' ->
+                       Inv (fst r') /\ incl (fst s0) (fst r')).
+        { intros k Hdk Hrk. destruct (decision_active (fst s0) l0 c HIs Hi k Hdk) as [x' [Hxin [Hxc [Hxk Hlc']]]].
+          assert (Em : map cc_of l0 ++ [(c, k)] = map cc_of (l0 ++ [x'])).
+          { assert (Ex : cc_of x' = (c, k)) by (unfold cc_of; rewrite Hxc, Hxk; reflexivity).
+            rewrite map_app. cbn [map]. rewrite Ex. reflexivity. }
+          rewrite Em in Hrk. apply implicit_inv in Hrk; [exact Hrk| |exact HIs|].
+          - intros z Hz. apply in_app_or in Hz. destruct Hz as [Hz|[<-|[]]]; [apply Hi; exact Hz|exact Hxin].
+          - rewrite <- (active_from_Inv (fst s0) HIs), active_from_snoc, (active_from_Inv (fst s0) HIs), Ha, Hlc'. reflexivity. }
+        destruct (find (in_choice sch (map cc_of l0) c) (fst s0)) as [n|].
+        - destruct (n_case sch (map cc_of l0) c n) as [k|]; [apply (Hgen k eq_refl Hr)|inversion Hr; subst; split; [exact HIs|apply incl_refl]].
+        - destruct (dflt_case sch p (map cc_of l0) c) as [k|]; [apply (Hgen k eq_refl Hr)|inversion Hr; subst; split; [exact HIs|apply incl_refl]]. }
+      pose proof (fun Hin Hst Ha' => fold_res_elem _ (fun s0 => Inv (fst s0)) (fun s0 => has_sid (fst s0) s = true)
+                                                   _ (ch_id x) Hin Hst Ha' st st1 HI H1) as Hfe.
+      apply Hfe; clear Hfe.
+      + apply (in_choices_at s l0 x l1 Hs Hc).
+      + intros s0 c r' HIs Hr. destruct (Hstep s0 c r' HIs Hr) as [Hr1 Hr2]. split; [exact Hr1|]. intro Hp. apply (has_sid_incl _ _ _ Hr2 Hp).
+      + intros s0 r' HIs Hr.
+        pose proof (decision_follows (fst s0) l0 s x l1 HIs Hi Hs Hc) as Hdec.
+        assert (Hlc0 : level_cond (fst s0) (map cc_of l0) x = true).
+        { unfold level_cond. rewrite (existsb_expl _ (fst s0)), (existsb_expl _ (fst s0)), (i_expl (fst s0) HIs).
+          rewrite !(existsb_expl _ E) in Hlc.
+          assert (EE : filter expl E = E).
+          { rewrite <- (i_expl (fst s0) HIs). generalize (fst s0). intro g0. induction g0 as [|n g0 IHg]; cbn [filter]; [reflexivity|].
+            destruct (expl n) eqn:En; cbn [filter]; [rewrite En, IHg; reflexivity|exact IHg]. }
+          rewrite EE in Hlc. exact Hlc. }
+        specialize (Hdec Hlc0).
+        assert (Hrec : implicit fuel sch false path p (map cc_of (l0 ++ [x])) s0 = Ok r').
+        { rewrite map_app. cbn [map]. unfold cc_of at 2.
+          destruct (find (in_choice sch (map cc_of l0) (ch_id x)) (fst s0)) as [n|]; rewrite Hdec in Hr; exact Hr. }
+        apply (IH (l0 ++ [x]) s0 r' s l1); [| exact HIs| |exact Hrec|exact Hs| | |exact Hd].
+        * intros z Hz. apply in_app_or in Hz. destruct Hz as [Hz|[<-|[]]]; [apply Hi; exact Hz|].
+          apply (chainf_incl sch s). rewrite Hc. apply in_or_app. right. left. reflexivity.
+        * rewrite active_from_snoc, Ha. exact Hlc.
+        * rewrite <- app_assoc. exact Hc.
+        * rewrite map_app. cbn [map]. exact Hal.
+  Qed.
+
+  (* ---- the result is the normal form of the level ---- *)
+  Lemma chain_conflict_inv : forall a b, chain_conflict a b = true ->
+    exists la xa ra lb xb rb, a = la ++ xa :: ra /\ b = lb ++ xb :: rb /\ map cc_of la = map cc_of lb /\
+                              ch_id xa = ch_id xb /\ ch_case xa <> ch_case xb.
+  Proof.
+    induction a as [|x a IH]; intros [|y b] H; cbn [chain_conflict] in H; try discriminate.
+    destruct (ch_id x =? ch_id y) eqn:Ei; [|discriminate]. apply N.eqb_eq in Ei.
+    destruct (ch_case x =? ch_case y) eqn:Ec.
+    - apply N.eqb_eq in Ec. destruct (IH b H) as [la [xa [ra [lb [xb [rb [Ha [Hb [Hm [Hi Hc]]]]]]]]]].
+      exists (x :: la), xa, ra, (y :: lb), xb, rb. subst a b. repeat split; try assumption.
+      cbn [map]. unfold cc_of at 1 3. rewrite Ei, Ec, Hm. reflexivity.
+    - apply N.eqb_neq in Ec. exists [], x, a, [], y, b. repeat split; assumption.
+  Qed.
+
+  Lemma node_level_cond g n la x ra : Inv g -> In n g -> chainf sch (d_sid n) = la ++ x :: ra ->
+    level_cond g (map cc_of la) x = true.
+  Proof.
+    intros HI Hn Hc. destruct (d_dflt n) eqn:Ed.
+    - destruct (i_dflt g HI n Hn Ed) as [_ [Hact _]]. unfold active in Hact. rewrite Hc, active_from_app in Hact.
+      apply andb_true_iff in Hact. destruct Hact as [_ Hact]. cbn [active_from app] in Hact.
+      apply andb_true_iff in Hact. apply Hact.
+    - unfold level_cond. apply orb_true_iff. left. apply existsb_exists. exists n. split; [exact Hn|].
+      unfold expl. rewrite Ed. cbn [negb andb]. unfold in_case, n_case, s_case. rewrite Hc, next_chc_app, !N.eqb_refl. reflexivity.
+  Qed.
+
+  Lemma Inv_cases_ok g : Inv g -> cases_okb sch g = true.
+  Proof.
+    intro HI. unfold cases_okb. apply forallb_forall. intros a Ha. apply forallb_forall. intros b Hb.
+    apply negb_true_iff. destruct (chain_conflict (chainf sch (d_sid a)) (chainf sch (d_sid b))) eqn:Ec; [exfalso|reflexivity].
+    destruct (chain_conflict_inv _ _ Ec) as [la [xa [ra [lb [xb [rb [Hca [Hcb [Hm [Hi Hne]]]]]]]]]].
+    pose proof (node_level_cond g a la xa ra HI Ha Hca) as L1.
+    pose proof (node_level_cond g b lb xb rb HI Hb Hcb) as L2. rewrite <- Hm in L2.
+    apply Hne. apply (level_cond_same_case g la xa xb HI); try assumption.
+    - apply (chainf_incl sch (d_sid a)). rewrite Hca. apply in_or_app. right. left. reflexivity.
+    - apply (chainf_incl sch (d_sid b)). rewrite Hcb. apply in_or_app. right. left. reflexivity.
+  Qed.
+
+  Lemma complete_nonnil s : complete sch s [] = false.
+  Proof.
+    unfold complete. destruct (kind_of sch s) as [[|]| | | |]; try reflexivity;
+      destruct (si_dflts (sget sch s)) as [|v vs]; try reflexivity. cbn [map]. rewrite same_vals_nil_cons. reflexivity.
+  Qed.
+
+  Lemma sid_split g s : filter (is_dflt_of s) g = [] -> filter (is_expl_of s) g = [] -> has_sid g s = false.
+  Proof.
+    intros HD HX. unfold has_sid. apply existsb_false_forall. intros n Hn.
+    destruct (d_sid n =? s) eqn:Es; [exfalso|reflexivity].
+    destruct (d_dflt n) eqn:Ed.
+    - assert (In n (filter (is_dflt_of s) g)) by (apply filter_In; split; [exact Hn|unfold is_dflt_of; rewrite Es, Ed; reflexivity]).
+      rewrite HD in H. exact H.
+    - assert (In n (filter (is_expl_of s) g)) by (apply filter_In; split; [exact Hn|unfold is_expl_of; rewrite Es, Ed; reflexivity]).
+      rewrite HX in H. exact H.
+  Qed.
+
+  Hypothesis HEnew : forall n, In n E -> d_new n = false.
+  Hypothesis HEsids : forall n, In n E -> In (d_sid n) (schildren sch p).
+  Hypothesis HEexpl : forall n, In n E -> d_dflt n = false.
+
+  Lemma filter_dflt_none (l : forest) s : (forall n, In n l -> d_dflt n = false) -> filter (is_dflt_of s) l = [].
+  Proof.
+    induction l as [|n l IH]; intro H; cbn [filter]; [reflexivity|].
+    unfold is_dflt_of at 1. rewrite (H n (or_introl eq_refl)), andb_false_r. apply IH. intros x Hx. apply H. right. exact Hx.
+  Qed.
+
+  Lemma Inv_init : Inv E.
+  Proof.
+    constructor.
+    - apply filter_id. intros n Hn. unfold expl. rewrite (HEexpl n Hn). reflexivity.
+    - intros n Hn Hd. rewrite (HEexpl n Hn) in Hd. discriminate.
+    - intro s. left. apply filter_dflt_none. exact HEexpl.
+  Qed.
+
+  Lemma Inv_norm_level g :
+    Inv g ->
+    (forall s, In s (schildren sch p) -> has_default sch s = true -> active sch g s = true -> has_sid g s = true) ->
+    norm_level sch p g = true.
+  Proof.
+    intros HI Hcomp. unfold norm_level. rewrite !andb_true_iff. repeat split.
+    - apply forallb_forall. intros n Hn. apply negb_true_iff. destruct (d_dflt n) eqn:Ed.
+      + apply (i_dflt g HI n Hn Ed).
+      + apply HEnew. rewrite <- (i_expl g HI). apply filter_In. split; [exact Hn|unfold expl; rewrite Ed; reflexivity].
+    - apply forallb_forall. intros n Hn. apply existsb_exists. exists (d_sid n). split; [|apply N.eqb_refl].
+      destruct (d_dflt n) eqn:Ed.
+      + apply (i_dflt g HI n Hn Ed).
+      + apply HEsids. rewrite <- (i_expl g HI). apply filter_In. split; [exact Hn|unfold expl; rewrite Ed; reflexivity].
+    - apply Inv_cases_ok. exact HI.
+    - apply forallb_forall. intros s Hs. rewrite norm_snode_alt.
+      destruct (i_comp g HI s) as [HD|[HE [Hd Hc]]].
+      + (* no default instance *)
+        rewrite HD. cbn [is_nil].
+        destruct (has_default sch s && (is_nil (filter (is_expl_of s) g) && active sch g s)) eqn:Ew; [exfalso|reflexivity].
+        apply andb_true_iff in Ew. destruct Ew as [Hd Ew]. apply andb_true_iff in Ew. destruct Ew as [HX Ha].
+        apply is_nil_true in HX.
+        pose proof (sid_split g s HD HX) as Hno. rewrite (Hcomp s Hs Hd Ha) in Hno. discriminate.
+      + (* the complete set of defaults: it is wanted *)
+        assert (HX : filter (is_expl_of s) g = []).
+        { destruct (filter (is_expl_of s) g) as [|n r] eqn:Ef; [reflexivity|exfalso].
+          assert (Hn : In n (filter (is_expl_of s) g)) by (rewrite Ef; left; reflexivity).
+          apply filter_In in Hn. destruct Hn as [Hn Hq]. unfold is_expl_of in Hq. apply andb_true_iff in Hq. destruct Hq as [Hs1 Hs2].
+          assert (HnE : In n E) by (rewrite <- (i_expl g HI); apply filter_In; split; [exact Hn|exact Hs2]).
+          unfold has_sid in HE. rewrite existsb_false_forall in HE. rewrite (HE n HnE) in Hs1. discriminate. }
+        assert (Ha : active sch g s = true).
+        { destruct (filter (is_dflt_of s) g) as [|n r] eqn:Ef; [rewrite complete_nonnil in Hc; discriminate|].
+          assert (Hn : In n (filter (is_dflt_of s) g)) by (rewrite Ef; left; reflexivity).
+          apply filter_In in Hn. destruct Hn as [Hn Hq]. unfold is_dflt_of in Hq. apply andb_true_iff in Hq. destruct Hq as [Hs1 Hs2].
+          apply N.eqb_eq in Hs1. rewrite <- Hs1. apply (i_dflt g HI n Hn Hs2). }
+        rewrite HX, Ha, Hd. cbn [is_nil andb]. exact Hc.
+  Qed.
+End Impl.
+
+(* ------------------------------------------------------------------------------------------- *)
+(* lyd_new_implicit on explicit siblings yields the normal form of the level                     *)
+(* ------------------------------------------------------------------------------------------- *)
+Lemma implicit_normal_form sch path p E acc r :
+  chc_okb sch = true -> cases_okb sch E = true ->
+  (forall n, In n E -> d_new n = false) -> (forall n, In n E -> In (d_sid n) (schildren sch p)) ->
+  (forall n, In n E -> d_dflt n = false) ->
+  implicit (cfuel sch) sch false path p [] (E, acc) = Ok r ->
+  norm_level sch p (fst r) = true /\ Inv sch p E (fst r).
+Proof.
+  intros Hk Hc Hn Hs He H.
+  pose proof (Inv_init sch p E He) as HI0.
+  destruct (implicit_inv sch path p E Hk (cfuel sch) [] (E, acc) r (fun x (Hx : In x []) => match Hx with end) HI0 eq_refl H) as [HI _].
+  split; [|exact HI].
+  apply (Inv_norm_level sch p E Hk Hc Hn Hs); [exact HI|].
+  intros s Hss Hd Ha.
+  apply (implicit_complete sch path p E Hk Hc (cfuel sch) [] (E, acc) r s (chainf sch s)
+           (fun x (Hx : In x []) => match Hx with end) HI0 eq_refl H Hss eq_refl); [|exact Hd].
+  unfold active in Ha. rewrite (active_from_Inv sch p E (fst r) HI) in Ha. exact Ha.
+Qed.
+
+(* ------------------------------------------------------------------------------------------- *)
+(* lyd_validate_new on freshly parsed siblings only clears LYD_NEW                               *)
+(* ------------------------------------------------------------------------------------------- *)
+Section VnewFresh.
+  Variable sch : schema.
+
+  Definition all_new (f : forest) : Prop := forall n, In n f -> d_new n = true.
+  Definition all_expl (f : forest) : Prop := forall n, In n f -> d_dflt n = false.
+
+  Lemma case_found_allnew pre c k f : all_new f -> case_found sch pre c k f <> FOld.
+  Proof.
+    intro Hn. unfold case_found. destruct (filter (in_case sch pre c k) f) as [|n r] eqn:Ef; cbn [existsb]; [discriminate|].
+    assert (Hin : In n f) by (assert (In n (filter (in_case sch pre c k) f)) by (rewrite Ef; left; reflexivity);
+                              apply filter_In in H; apply H).
+    rewrite (Hn n Hin). cbn [orb]. discriminate.
+  Qed.
+
+  Lemma cases_scan_allnew pre c f : all_new f -> forall ks new on, cases_scan sch pre c f ks None new = Ok on -> fst on = None.
+  Proof.
+    intro Hn. induction ks as [|k ks IH]; intros new on H; cbn [cases_scan] in H; [inversion H; reflexivity|].
+    pose proof (case_found_allnew pre c k f Hn) as Hf.
+    destruct (case_found sch pre c k f); [apply (IH _ _ H)|congruence|].
+    destruct new; [discriminate|apply (IH _ _ H)].
+  Qed.
+
+  Lemma validate_cases_allnew path p pre c f r : all_new f -> validate_cases sch path p pre c f = Ok r -> r = (f, []).
+  Proof.
+    intros Hn H. unfold validate_cases in H. apply bind_ok in H. destruct H as [[o n] [Hs H]].
+    apply (cases_scan_allnew pre c f Hn) in Hs. cbn [fst] in Hs. subst o. inversion H. reflexivity.
+  Qed.
+
+  Lemma choice_r_allnew path p : forall fuel pre st r, all_new (fst st) -> choice_r fuel sch path p pre st = Ok r -> r = st.
+  Proof.
+    induction fuel as [|fuel IH]; intros pre st r Hn H; cbn [choice_r] in H; [discriminate|].
+    apply (fold_res_id _ _ _ _) in H; [exact H|].
+    intros c r' _ Hc. apply bind_ok in Hc. destruct Hc as [a [Ha Hc]].
+    apply (validate_cases_allnew path p pre c (fst st) a Hn) in Ha. subst a. cbn [fst snd] in Hc. rewrite app_nil_r in Hc.
+    assert (E : (fst st, snd st) = st) by (destruct st; reflexivity). rewrite E in Hc.
+    apply (fold_res_id _ _ _ _) in Hc; [exact Hc|]. intros k r'' _ Hk. apply (IH _ _ _ Hn Hk).
+  Qed.
+
+  Lemma clr_new_expl n : d_dflt (clr_new n) = d_dflt n.
+  Proof. destruct n; reflexivity. Qed.
+
+  Lemma vnew_loop_fresh path : forall fuel bef aft last acc r,
+    all_expl (bef ++ aft) -> all_new aft ->
+    vnew_loop fuel sch path bef aft last acc = Ok r -> r = (bef ++ map clr_new aft, acc).
+  Proof.
+    induction fuel as [|fuel IH]; intros bef aft last acc r He Hn H; cbn [vnew_loop] in H; [discriminate|].
+    destruct aft as [|cur rest]; [inversion H; cbn [map]; rewrite app_nil_r; reflexivity|].
+    assert (Hnc : d_new cur = true) by (apply Hn; left; reflexivity).
+    assert (Hec : d_dflt cur = false) by (apply He; apply in_or_app; right; left; reflexivity).
+    rewrite Hnc in H. cbn [orb negb] in H.
+    assert (Hnd : forall l, all_expl l -> filter (fun n => negb (is_dflt_of (d_sid cur) n)) l = l).
+    { intros l Hl. apply filter_id. intros n Hin. unfold is_dflt_of. rewrite (Hl n Hin), andb_false_r. reflexivity. }
+    assert (Heb : all_expl bef) by (intros n Hin; apply He; apply in_or_app; left; exact Hin).
+    assert (Her : all_expl rest) by (intros n Hin; apply He; apply in_or_app; right; right; exact Hin).
+    assert (Ea : autodel_dflt sch bef cur rest = (bef, false, rest, [])).
+    { unfold autodel_dflt.
+      assert (Ex : existsb (is_expl_of (d_sid cur)) (bef ++ cur :: rest) = true).
+      { apply existsb_exists. exists cur. split; [apply in_or_app; right; left; reflexivity|].
+        unfold is_expl_of. rewrite N.eqb_refl, Hec. reflexivity. }
+      rewrite Ex, (Hnd bef Heb), (Hnd rest Her). unfold is_dflt_of at 1. rewrite Hec, andb_false_r.
+      rewrite (filter_dflt_none (bef ++ cur :: rest) (d_sid cur) He). reflexivity. }
+    assert (Hgen : match (if has_default sch (d_sid cur) && negb (opt_is last (d_sid cur)) && true
+                          then autodel_dflt sch bef cur rest else (bef, false, rest, [])) with
+                   | (b, gn, r0, ds) => (b, gn, r0, ds) end = (bef, false, rest, [])).
+    { destruct (has_default sch (d_sid cur) && negb (opt_is last (d_sid cur)) && true); [rewrite Ea|]; reflexivity. }
+    destruct (if has_default sch (d_sid cur) && negb (opt_is last (d_sid cur)) && true
+              then autodel_dflt sch bef cur rest else (bef, false, rest, [])) as [[[b gn] r0] ds] eqn:Et.
+    inversion Hgen; subst b gn r0 ds. clear Hgen.
+    cbn [flat_map] in H. rewrite app_nil_r in H.
+    destruct (true && negb (dup_inst sch (d_sid cur)) && existsb (same_inst sch cur) (bef ++ rest)); [discriminate|].
+    rewrite clr_new_expl, Hec in H. cbn [andb] in H.
+    apply IH in H.
+    - rewrite H. cbn [map]. rewrite <- app_assoc. reflexivity.
+    - intros n Hin. rewrite <- app_assoc in Hin. cbn [app] in Hin. apply in_app_or in Hin.
+      destruct Hin as [Hin|[<-|Hin]]; [apply Heb, Hin|rewrite clr_new_expl; exact Hec|apply Her, Hin].
+    - intros n Hin. apply Hn. right. exact Hin.
+  Qed.
+
+  Lemma vnew_fresh path p f r : all_new f -> all_expl f -> vnew sch path p f = Ok r -> r = (map clr_new f, []).
+  Proof.
+    intros Hn He H. unfold vnew in H. apply bind_ok in H. destruct H as [st [Hc H]].
+    apply choice_r_allnew in Hc; [|exact Hn]. subst st. cbn [fst snd] in H.
+    apply vnew_loop_fresh in H; [exact H|exact He|exact Hn].
+  Qed.
+End VnewFresh.
+
+(* ------------------------------------------------------------------------------------------- *)
+(* the normal form of a level does not look below inner nodes                                    *)
+(* ------------------------------------------------------------------------------------------- *)
+Section Shallow.
+  Variable sch : schema.
+
+  Definition sh (n : dnode) : dnode := if is_inner sch (d_sid n) then set_ch n [] else n.
+
+  Lemma sh_fields n : d_sid (sh n) = d_sid n /\ d_val (sh n) = d_val n /\ d_dflt (sh n) = d_dflt n /\ d_new (sh n) = d_new n.
+  Proof. unfold sh. destruct (is_inner sch (d_sid n)); destruct n; repeat split. Qed.
+
+  Lemma filter_map_sh (q : dnode -> bool) l : (forall n, q (sh n) = q n) -> filter q (map sh l) = map sh (filter q l).
+  Proof.
+    intro Hq. induction l as [|n l IH]; cbn [map filter]; [reflexivity|].
+    rewrite Hq. destruct (q n); cbn [map]; rewrite IH; reflexivity.
+  Qed.
+
+  Lemma existsb_map_sh (q : dnode -> bool) l : (forall n, q (sh n) = q n) -> existsb q (map sh l) = existsb q l.
+  Proof. intro Hq. induction l as [|n l IH]; cbn [map existsb]; [reflexivity|]. rewrite Hq, IH. reflexivity. Qed.
+
+  Lemma forallb_map_sh (q : dnode -> bool) l : (forall n, q (sh n) = q n) -> forallb q (map sh l) = forallb q l.
+  Proof. intro Hq. induction l as [|n l IH]; cbn [map forallb]; [reflexivity|]. rewrite Hq, IH. reflexivity. Qed.
+
+  Lemma active_from_sh l : forall ch pre, active_from sch (map sh l) pre ch = active_from sch l pre ch.
+  Proof.
+    induction ch as [|x ch IH]; intro pre; cbn [active_from]; [reflexivity|]. rewrite IH.
+    rewrite !(existsb_map_sh _ l); [reflexivity| |]; intro n; destruct (sh_fields n) as [E1 [_ [E3 _]]];
+      unfold expl, in_choice, in_case, n_case; rewrite E1, E3; reflexivity.
+  Qed.
+
+  Lemma map_sh_noninner l s : is_inner sch s = false -> (forall n, In n l -> d_sid n = s) -> map sh l = l.
+  Proof.
+    intros Hi Hs. induction l as [|n l IH]; cbn [map]; [reflexivity|].
+    rewrite IH by (intros x Hx; apply Hs; right; exact Hx).
+    unfold sh. rewrite (Hs n (or_introl eq_refl)), Hi. reflexivity.
+  Qed.
+
+  Lemma is_nil_map {A B} (f : A -> B) l : is_nil (map f l) = is_nil l.
+  Proof. destruct l; reflexivity. Qed.
+
+  Lemma norm_snode_sh l s : norm_snode sch (map sh l) s = norm_snode sch l s.
+  Proof.
+    unfold norm_snode.
+    assert (HD : filter (is_dflt_of s) (map sh l) = map sh (filter (is_dflt_of s) l)).
+    { apply filter_map_sh. intro n. destruct (sh_fields n) as [E1 [_ [E3 _]]]. unfold is_dflt_of. rewrite E1, E3. reflexivity. }
+    assert (HX : filter (is_expl_of s) (map sh l) = map sh (filter (is_expl_of s) l)).
+    { apply filter_map_sh. intro n. destruct (sh_fields n) as [E1 [_ [E3 _]]]. unfold is_expl_of. rewrite E1, E3. reflexivity. }
+    assert (HA : active sch (map sh l) s = active sch l s) by (unfold active; apply active_from_sh).
+    rewrite HD, HX, HA, !is_nil_map.
+    assert (Hsid : forall n, In n (filter (is_dflt_of s) l) -> d_sid n = s).
+    { intros n Hn. apply filter_In in Hn. destruct Hn as [_ Hq]. unfold is_dflt_of in Hq. apply andb_true_iff in Hq. apply N.eqb_eq, Hq. }
+    destruct (kind_of sch s) as [[|]| | | |] eqn:Ek; try reflexivity.
+    - destruct (filter (is_dflt_of s) l) as [|a [|b r]]; reflexivity.
+    - rewrite (map_sh_noninner _ s); [reflexivity|unfold is_inner; rewrite Ek; reflexivity|exact Hsid].
+    - rewrite (map_sh_noninner _ s); [reflexivity|unfold is_inner; rewrite Ek; reflexivity|exact Hsid].
+  Qed.
+
+  Lemma forallb_ext' {A} (f g : A -> bool) l : (forall x, f x = g x) -> forallb f l = forallb g l.
+  Proof. intro H. induction l as [|x l IH]; cbn [forallb]; [reflexivity|]. rewrite H, IH. reflexivity. Qed.
+
+  Lemma norm_level_sh p l : norm_level sch p (map sh l) = norm_level sch p l.
+  Proof.
+    unfold norm_level. f_equal; [f_equal; [f_equal|]|].
+    - apply forallb_map_sh. intro n. destruct (sh_fields n) as [_ [_ [_ E4]]]. rewrite E4. reflexivity.
+    - apply forallb_map_sh. intro n. destruct (sh_fields n) as [E1 _]. rewrite E1. reflexivity.
+    - unfold cases_okb. rewrite forallb_map_sh.
+      + apply forallb_ext'. intro a. apply forallb_map_sh. intro n. destruct (sh_fields n) as [E1 _]. rewrite E1. reflexivity.
+      + intro n. destruct (sh_fields n) as [E1 _]. rewrite E1. apply forallb_ext'. intro b. reflexivity.
+    - apply forallb_ext'. intro s. apply norm_snode_sh.
+  Qed.
+
+  (* what descend does to every sibling *)
+  Lemma descend_spec (rec : list pstep -> option sid -> forest -> res (forest * list change)) path : forall l acc r,
+    descend rec sch path l acc = Ok r ->
+    map sh (fst r) = map sh l /\
+    Forall2 (fun n n' => (is_inner sch (d_sid n) = true /\
+                          exists c, rec (path ++ [step_of sch n]) (Some (d_sid n)) (d_ch n) = Ok c /\ n' = set_ch n (fst c)) \/
+                         (is_inner sch (d_sid n) = false /\ n' = n)) l (fst r).
+  Proof.
+    induction l as [|n l IH]; intros acc r H; cbn [descend] in H.
+    - inversion H; subst. split; [reflexivity|constructor].
+    - apply bind_ok in H. destruct H as [n' [Hn' H]]. apply bind_ok in H. destruct H as [r' [Hr' H]].
+      inversion H; subst. cbn [fst]. destruct (IH _ _ Hr') as [H1 H2].
+      destruct (is_inner sch (d_sid n)) eqn:Ei.
+      + apply bind_ok in Hn'. destruct Hn' as [c [Hc Hn']]. inversion Hn'; subst. cbn [fst].
+        split; [cbn [map]; rewrite H1; f_equal; unfold sh; destruct n; cbn [set_ch d_sid] in *; rewrite Ei; reflexivity|].
+        constructor; [left; split; [exact Ei|exists c; split; [exact Hc|reflexivity]]|exact H2].
+      + inversion Hn'; subst. cbn [fst]. split; [cbn [map]; rewrite H1; reflexivity|].
+        constructor; [right; split; [exact Ei|reflexivity]|exact H2].
+  Qed.
+End Shallow.
+
+(* ------------------------------------------------------------------------------------------- *)
+(* freshly parsed data: validation reaches the normal form                                       *)
+(* ------------------------------------------------------------------------------------------- *)
+Lemma fresh_node_unfold sch s v d m ch :
+  fresh_node sch (DN s v d m ch) =
+  d_new (DN s v d m ch) && negb d && (if is_np_cont sch s then negb (is_nil ch) else true) && cases_okb sch ch &&
+  forallb (fresh_node sch) ch.
+Proof. reflexivity. Qed.
+
+Lemma canon_sid sch p n : CanonN sch p n -> In (d_sid n) (schildren sch p).
+Proof.
+  destruct n as [s v d m ch]. rewrite CanonN_unfold. intros [[i [Hl [Hp _]]] _]. cbn [d_sid].
+  unfold schildren. apply in_map_iff. exists (s, i). split; [reflexivity|]. apply filter_In. split; [apply lookup_In; exact Hl|].
+  cbn [snd]. apply opt_sid_eqb_eq. exact Hp.
+Qed.
+
+Lemma canon_term_nochild sch p n : CanonN sch p n -> is_inner sch (d_sid n) = false -> d_ch n = [].
+Proof.
+  destruct n as [s v d m ch]. rewrite CanonN_unfold. intros [[i [Hl [_ [_ Ht]]]] _] Hi. cbn [d_sid d_ch] in *.
+  apply Ht. unfold is_inner, kind_of, sget in Hi. rewrite Hl in Hi. destruct (si_kind i) as [[|]| | | |]; try discriminate; reflexivity.
+Qed.
+
+Lemma cases_okb_map_clr sch f : cases_okb sch (map clr_new f) = cases_okb sch f.
+Proof.
+  unfold cases_okb.
+  assert (H : forall (q : dnode -> bool) l, (forall n, q (clr_new n) = q n) -> forallb q (map clr_new l) = forallb q l).
+  { intros q l Hq. induction l as [|n l IH]; cbn [map forallb]; [reflexivity|]. rewrite Hq, IH. reflexivity. }
+  rewrite H.
+  - apply forallb_ext'. intro a. apply H. intro n. destruct (clr_new_fields n) as [E1 _]. rewrite E1. reflexivity.
+  - intro n. destruct (clr_new_fields n) as [E1 _]. rewrite E1. apply forallb_ext'. intro b. reflexivity.
+Qed.
+
+Lemma existsb_expl_not_all l : existsb expl l = true -> forallb d_dflt l = false.
+Proof.
+  intro H. apply existsb_exists in H. destruct H as [x [Hx He]].
+  destruct (forallb d_dflt l) eqn:E; [|reflexivity]. rewrite forallb_forall in E. unfold expl in He. rewrite (E x Hx) in He. discriminate.
+Qed.
+
+Lemma Forall2_In_r {A B} (R : A -> B -> Prop) l l' : Forall2 R l l' -> forall y, In y l' -> exists x, In x l /\ R x y.
+Proof.
+  induction 1 as [|a b l l' Hab HF IH]; intros y Hy; [destruct Hy|].
+  destruct Hy as [<-|Hy]; [exists a; split; [left; reflexivity|exact Hab]|].
+  destruct (IH y Hy) as [x [Hx Hr]]. exists x. split; [right; exact Hx|exact Hr].
+Qed.
+
+Lemma strip_node_unfold s v d m ch :
+  strip_node (DN s v d m ch) = DN s v d (filter (fun kv => negb (is_newkv kv)) m) (strip ch).
+Proof.
+  cbn [strip_node]. f_equal.
+Qed.
+
+Lemma strip_filter l : strip l = map strip_node (filter expl l).
+Proof.
+  induction l as [|x l IH]; cbn [strip filter]; [reflexivity|]. unfold expl at 1.
+  destruct (d_dflt x); cbn [negb map]; rewrite IH; reflexivity.
+Qed.
+
+Lemma filter_idem {A} (q : A -> bool) l : filter q (filter q l) = filter q l.
+Proof. apply filter_id. intros x Hx. apply filter_In in Hx. apply Hx. Qed.
+
+Lemma Forall2_filter {A B} (R : A -> B -> Prop) (q : A -> bool) (q' : B -> bool) l l' :
+  Forall2 R l l' -> (forall x y, R x y -> q x = q' y) -> Forall2 R (filter q l) (filter q' l').
+Proof.
+  intros HF Hq. induction HF as [|a b l l' Hab HF IH]; cbn [filter]; [constructor|].
+  rewrite (Hq a b Hab). destruct (q' b); [constructor; assumption|exact IH].
+Qed.
+
+Lemma Forall2_map_eq {A B C} (R : A -> B -> Prop) (f : A -> C) (g : B -> C) l l' :
+  Forall2 R l l' -> (forall x y, R x y -> f x = g y) -> map f l = map g l'.
+Proof. intros HF H. induction HF as [|a b l l' Hab HF IH]; cbn [map]; [reflexivity|]. rewrite (H a b Hab), IH. reflexivity. Qed.
+
+Lemma Forall2_map_eq_in {A B C} (R : A -> B -> Prop) (f : A -> C) (g : B -> C) l l' :
+  Forall2 R l l' -> (forall x y, In x l -> R x y -> f x = g y) -> map f l = map g l'.
+Proof.
+  intros HF. induction HF as [|a b l l' Hab HF IH]; intro H; cbn [map]; [reflexivity|].
+  rewrite (H a b (or_introl eq_refl) Hab), IH; [reflexivity|]. intros x y Hx. apply H. right. exact Hx.
+Qed.
+
+Lemma Forall2_map_l {A B C} (R : B -> C -> Prop) (f : A -> B) l l' : Forall2 R (map f l) l' -> Forall2 (fun x y => R (f x) y) l l'.
+Proof.
+  revert l'. induction l as [|a l IH]; intros l' H; inversion H; subst; constructor; [assumption|apply IH; assumption].
+Qed.
+
+Section LevelFresh.
+  Variable sch : schema.
+  Hypothesis Hk : chc_okb sch = true.
+
+  Lemma level_fresh : forall fuel path p f r,
+    CanonAt sch p f -> cases_okb sch f = true -> forallb (fresh_node sch) f = true ->
+    level fuel true false sch path p f = Ok r ->
+    norm_level sch p (fst r) = true /\ forallb (normal_node sch) (fst r) = true /\
+    (f <> [] -> existsb expl (fst r) = true) /\ (f = [] -> forallb d_dflt (fst r) = true) /\
+    strip (fst r) = strip f.
+  Proof.
+    induction fuel as [|fuel IH]; intros path p f r Hcan Hcases Hfresh H; cbn [level] in H; [discriminate|].
+    apply bind_ok in H. destruct H as [st1 [H1 H]]. apply bind_ok in H. destruct H as [st2 [H2 H]].
+    rewrite forallb_forall in Hfresh.
+    assert (Hnew : all_new f).
+    { intros n Hn. specialize (Hfresh n Hn). destruct n as [s v d m ch]. rewrite fresh_node_unfold in Hfresh.
+      repeat (apply andb_true_iff in Hfresh; destruct Hfresh as [Hfresh ?]). exact Hfresh. }
+    assert (Hexp : all_expl f).
+    { intros n Hn. specialize (Hfresh n Hn). destruct n as [s v d m ch]. rewrite fresh_node_unfold in Hfresh.
+      repeat (apply andb_true_iff in Hfresh; destruct Hfresh as [Hfresh ?]). cbn [d_dflt]. apply negb_true_iff. assumption. }
+    apply (vnew_fresh sch path p f st1 Hnew Hexp) in H1. subst st1.
+    set (E := map clr_new f) in *.
+    assert (HEn : forall n, In n E -> d_new n = false).
+    { intros n Hn. apply in_map_iff in Hn. destruct Hn as [n0 [<- _]]. apply clr_new_not_new. }
+    assert (HEs : forall n, In n E -> In (d_sid n) (schildren sch p)).
+    { intros n Hn. apply in_map_iff in Hn. destruct Hn as [n0 [<- Hn0]]. destruct (clr_new_fields n0) as [E1 _]. rewrite E1.
+      apply (canon_sid sch p n0). apply (CanonAt_In sch p f n0 Hcan Hn0). }
+    assert (HEe : forall n, In n E -> d_dflt n = false).
+    { intros n Hn. apply in_map_iff in Hn. destruct Hn as [n0 [<- Hn0]]. rewrite clr_new_expl. apply Hexp, Hn0. }
+    assert (HEc : cases_okb sch E = true) by (unfold E; rewrite cases_okb_map_clr; exact Hcases).
+    destruct (implicit_normal_form sch path p E [] st2 Hk HEc HEn HEs HEe H2) as [Hnl HI].
+    destruct (descend_spec sch (level fuel true false sch) path (fst st2) (snd st2) r H) as [Hsh HF2].
+    assert (Hflags : forall q : dnode -> bool, (forall n, q (sh sch n) = q n) -> forall a b, map (sh sch) a = map (sh sch) b ->
+                     existsb q a = existsb q b /\ forallb q a = forallb q b).
+    { intros q Hq a b Hab. rewrite <- (existsb_map_sh sch q a Hq), <- (existsb_map_sh sch q b Hq),
+                                  <- (forallb_map_sh sch q a Hq), <- (forallb_map_sh sch q b Hq), Hab. split; reflexivity. }
+    assert (Hexpl_sh : forall n, expl (sh sch n) = expl n).
+    { intro n. destruct (sh_fields sch n) as [_ [_ [E3 _]]]. unfold expl. rewrite E3. reflexivity. }
+    assert (Hdflt_sh : forall n, d_dflt (sh sch n) = d_dflt n) by (intro n; apply (sh_fields sch n)).
+    split; [rewrite <- (norm_level_sh sch p (fst r)), Hsh, norm_level_sh; exact Hnl|].
+    split.
+    - (* every node is in normal form *)
+      apply forallb_forall. intros n' Hn'.
+      destruct (Forall2_In_r _ _ _ HF2 n' Hn') as [n [Hn Hrel]].
+      destruct Hrel as [[Hi [c [Hc ->]]]|[Hi ->]].
+      + (* inner node: its children went through the same procedure *)
+        destruct n as [s v d m ch]. cbn [set_ch d_sid d_ch] in *. rewrite normal_node_unfold, Hi.
+        destruct d.
+        * (* created default container: no children before *)
+          destruct (i_dflt sch p E (fst st2) HI _ Hn eq_refl) as [_ [_ [_ Hch]]]. cbn [d_ch] in Hch. subst ch.
+          destruct (IH _ _ _ _ (CanonAt_nil sch (Some s)) eq_refl eq_refl Hc) as [A [B [_ [D _]]]].
+          rewrite A, B, (D eq_refl). destruct (is_np_cont sch s); reflexivity.
+        * (* explicit node: from the input *)
+          assert (HnE : In (DN s v false m ch) E).
+          { rewrite <- (i_expl sch p E (fst st2) HI). apply filter_In. split; [exact Hn|reflexivity]. }
+          apply in_map_iff in HnE. destruct HnE as [n0 [En0 Hn0]].
+          pose proof (Hfresh n0 Hn0) as Hf0. destruct n0 as [s0 v0 d0 m0 ch0]. cbn [clr_new] in En0. inversion En0; subst s0 v0 d0 ch0.
+          rewrite fresh_node_unfold in Hf0.
+          apply andb_true_iff in Hf0. destruct Hf0 as [Hf0 Hf5]. apply andb_true_iff in Hf0. destruct Hf0 as [Hf0 Hf4].
+          apply andb_true_iff in Hf0. destruct Hf0 as [Hf0 Hf3].
+          pose proof (CanonAt_children sch p _ (CanonAt_In sch p f _ Hcan Hn0)) as Hcc. cbn [d_sid d_ch] in Hcc.
+          destruct (IH _ _ _ _ Hcc Hf4 Hf5 Hc) as [A [B [C _]]].
+          rewrite A, B. destruct (is_np_cont sch s); [|reflexivity].
+          apply negb_true_iff in Hf3. assert (Hne : ch <> []) by (intro Ee; subst ch; discriminate).
+          rewrite (existsb_expl_not_all _ (C Hne)). reflexivity.
+      + (* terminal node *)
+        assert (Hch : d_ch n = []).
+        { destruct (d_dflt n) eqn:Ed.
+          - apply (i_dflt sch p E (fst st2) HI n Hn Ed).
+          - assert (HnE : In n E) by (rewrite <- (i_expl sch p E (fst st2) HI); apply filter_In; split; [exact Hn|unfold expl; rewrite Ed; reflexivity]).
+            apply in_map_iff in HnE. destruct HnE as [n0 [<- Hn0]]. destruct (clr_new_fields n0) as [E1 [_ [_ E4]]].
+            rewrite E4. rewrite E1 in Hi. apply (canon_term_nochild sch p n0 (CanonAt_In sch p f n0 Hcan Hn0) Hi). }
+        destruct n as [s v d m ch]. cbn [d_ch d_sid] in *. subst ch. rewrite normal_node_unfold, Hi. cbn [forallb].
+        unfold is_inner in Hi. unfold is_np_cont. destruct (kind_of sch s) as [[|]| | | |]; try discriminate; reflexivity.
+    - (* explicit nodes of the result are those of the input *)
+      destruct (Hflags expl Hexpl_sh _ _ Hsh) as [Hex _]. destruct (Hflags d_dflt Hdflt_sh _ _ Hsh) as [_ Hfa].
+      rewrite Hex, Hfa. split; [|split].
+      + intro Hne. destruct f as [|n0 f0]; [contradiction|]. apply existsb_exists. exists (clr_new n0).
+        assert (HinE : In (clr_new n0) E) by (left; reflexivity).
+        rewrite <- (i_expl sch p E (fst st2) HI) in HinE. apply filter_In in HinE. exact HinE.
+      + intro Hnil. subst f. apply forallb_forall. intros n Hn. destruct (d_dflt n) eqn:Ed; [reflexivity|exfalso].
+        assert (HinE : In n E) by (rewrite <- (i_expl sch p E (fst st2) HI); apply filter_In; split; [exact Hn|unfold expl; rewrite Ed; reflexivity]).
+        destruct HinE.
+      + (* the explicit content *)
+        rewrite !strip_filter.
+        assert (HF3 : Forall2 (fun n n' => (is_inner sch (d_sid n) = true /\
+                          exists c, level fuel true false sch (path ++ [step_of sch n]) (Some (d_sid n)) (d_ch n) = Ok c /\ n' = set_ch n (fst c)) \/
+                         (is_inner sch (d_sid n) = false /\ n' = n)) (filter expl (fst st2)) (filter expl (fst r))).
+        { apply Forall2_filter; [exact HF2|]. intros x y [[_ [c [_ ->]]]|[_ ->]]; [destruct x; reflexivity|reflexivity]. }
+        rewrite (i_expl sch p E (fst st2) HI) in HF3. unfold E in HF3. apply Forall2_map_l in HF3.
+        assert (Hfe : filter expl f = f) by (apply filter_id; intros n Hn; unfold expl; rewrite (Hexp n Hn); reflexivity).
+        rewrite Hfe. symmetry.
+        apply (Forall2_map_eq_in _ strip_node strip_node _ _ HF3).
+        intros n0 n' Hn0 Hrel.
+        pose proof (Hfresh n0 Hn0) as Hf0. destruct n0 as [s0 v0 d0 m0 ch0]. rewrite fresh_node_unfold in Hf0.
+        apply andb_true_iff in Hf0. destruct Hf0 as [Hf0 Hf5]. apply andb_true_iff in Hf0. destruct Hf0 as [Hf0 Hf4].
+        cbn [clr_new d_sid d_ch set_ch] in Hrel.
+        destruct Hrel as [[Hi [c [Hc ->]]]|[Hi ->]].
+        * pose proof (CanonAt_children sch p _ (CanonAt_In sch p f _ Hcan Hn0)) as Hcc. cbn [d_sid d_ch] in Hcc.
+          destruct (IH _ _ _ _ Hcc Hf4 Hf5 Hc) as [_ [_ [_ [_ Hst]]]].
+          cbn [set_ch]. rewrite !strip_node_unfold, Hst, filter_idem. reflexivity.
+        * rewrite !strip_node_unfold, filter_idem. reflexivity.
+  Qed.
+End LevelFresh.
+
+Theorem validate_fresh_normal sch f g d :
+  chc_okb sch = true -> Canon sch f -> freshb sch f = true -> f <> [] ->
+  validate_all sch f = Ok (g, d) -> normalb sch g = true /\ strip g = strip f.
+Proof.
+  intros Hk Hc Hf Hne H. unfold freshb in Hf. apply andb_true_iff in Hf. destruct Hf as [Hf1 Hf2].
+  unfold validate_all in H. destruct f as [|n0 f0]; [contradiction|].
+  apply bind_ok in H. destruct H as [st [Hs H]]. apply bind_ok in H. destruct H as [gg [Hfin H]]. inversion H; subst gg d. clear H.
+  destruct (level_fresh sch Hk _ _ _ _ _ Hc Hf1 Hf2 Hs) as [A [B [_ [_ S]]]].
+  assert (Eg : g = fst st).
+  { unfold final_forest in Hfin. apply bind_ok in Hfin. destruct Hfin as [u [_ Hfin]].
+    apply (map_res_id (final_node sch)); [|exact Hfin].
+    rewrite forallb_forall in B. apply Forall_forall. intros x Hx y Hy. apply (final_node_normal sch x y Hy (B x Hx)). }
+  subst g. split; [unfold normalb; rewrite A, B; reflexivity|exact S].
+Qed.
+
+(* ------------------------------------------------------------------------------------------- *)
 (* witnesses of the deviations (each is a finding, replayed on libyang by known_findings.d/dflt.json)              *)
 (* ------------------------------------------------------------------------------------------- *)
 Definition wleaf (par : option sid) (d : list bytes) (ch : list chc) : sinfo :=
